@@ -18,7 +18,7 @@ import random
 import itertools
 
 from .. import instr, harness, stacks
-from ..harness import (Sweep, Ctx, ManualExecutor, SpyFuture, call, check_common, begin, end, drive,
+from ..harness import (Sweep, SweepNested, Ctx, ManualExecutor, SpyFuture, call, check_common, begin, end, drive,
                        Recorded, UserErrorA, outcome, outcome_repr)
 from ..instr import LOG, TR, LM, Inconclusive
 
@@ -75,11 +75,33 @@ def cases(tier, seed):
                         "trigger": trig, "cap": 16 if tier == "quick" else 80})
         out.append({"name": "loop.timer/%s" % ">".join(layers), "kind": "timer", "layers": layers,
                     "cap": 14 if tier == "quick" else 60})
+    # the same wake-up sweeps with suspension points at bytecode-instruction boundaries: reaches the
+    # windows inside one statement (a right-hand side evaluated, the store not yet done)
+    for layers in ([[w] for w in workers] + ([["map", w] for w in workers] if tier == "thorough" else [])):
+        for trig in ("submit", "complete", "fail"):
+            out.append({"name": "loop.wake-instr/%s/%s" % (">".join(layers), trig), "kind": "wake", "layers": layers,
+                        "trigger": trig, "cap": None, "gran": "instr"})
     for layers in ([["retry"], ["poll"], ["throttle"], ["timeout"], ["map"], ["retry", "map"], ["map", "retry"], ["throttle", "retry"]]
                    + ([list(p) for p in itertools.product(SINGLE, SINGLE)] if tier == "thorough" else [])):
         for a, b in (("complete", "complete"), ("complete", "fail"), ("fail", "complete"), ("fail", "fail"), ("complete", "inner_cancel")):
             out.append({"name": "done.pair/%s/%s|%s" % (">".join(layers), a, b), "kind": "donepair", "layers": layers, "a": a, "b": b,
                         "cap": 30 if tier == "quick" else None})
+    ast = [[t] for t in SINGLE] + ([list(p) for p in itertools.product(SINGLE, SINGLE)] if tier == "thorough" else
+                                    [["map", "retry"], ["retry", "map"], ["map", "poll"], ["flat_map", "throttle"], ["timeout", "map"]])
+    for layers in ast:
+        for how in ("value", "exc", "inner_cancel", "outer_cancel"):
+            for direction in ("attach-first", "end-first", "end-first-worker"):
+                out.append({"name": "attach/%s/%s/%s" % (">".join(layers), how, direction), "kind": "attach", "layers": layers,
+                            "how": how, "direction": direction, "cap": 24 if tier == "quick" else None,
+                            "gran": "instr" if (tier == "thorough" and len(layers) == 1) else "line"})
+    # both sides suspended: the side ending the work at i, the attaching consumer at j, the ending side released first
+    for layers in ([[t] for t in SINGLE] + ([list(p) for p in itertools.product(SINGLE, SINGLE)] if tier == "thorough" else [])):
+        for how in ("value", "exc", "inner_cancel"):
+            for direction in ("end-first", "end-first-worker"):
+                for op in ("cb", "f_map"):
+                    out.append({"name": "attach-nested/%s/%s/%s/%s" % (">".join(layers), how, direction, op), "kind": "attach-nested",
+                                "layers": layers, "how": how, "direction": direction, "op": op,
+                                "budget": 120 if tier == "quick" else 1500})
     for order in (["long", "short"], ["short", "long"], ["long", "short", "mid"], ["mid", "long", "short", "short"]):
         for form in ("executor", "f_timeout"):
             out.append({"name": "ext.timeout/%s/%s" % (form, "-".join(order)), "kind": "tmo", "order": order, "form": form})
@@ -379,13 +401,165 @@ class DonePairScenario(object):
         ctx.w.judge(res, "donepair/%s/%s|%s" % (">".join(self.case["layers"]), self.case["a"], self.case["b"]), "value", info)
 
 
+ATTACH_OPS = ["cb", "f_map", "f_zip", "f_nocancel", "f_flat_map"]
+
+
+class AttachScenario(object):
+    """A consumer chains onto a future of the stack (done-callback / f_map / f_zip / ...) while the work
+    under that future ends on another thread.  Either side is the one suspended at each boundary.  Whatever
+    the order, once the stack's future is done the attached callback has run and the chained future is done."""
+
+    def __init__(self, case, op):
+        self.case, self.op = case, op
+
+    def setup(self):
+        ctx = Ctx()
+        w = World(ctx, self.case["layers"], n=2)
+        ctx.w = w
+        ctx.cb_calls = []
+        ctx.chained = None
+        instr.advance(D)
+        return ctx
+
+    def victim_role(self, ctx):
+        if self.case["direction"] == "end-first-worker":
+            ths = [t for t in instr.TRACKED if t.vf_started]
+            if not ths:
+                return None
+            return ths[0].vf_role
+        return "V"
+
+    def attach(self, ctx):
+        ME = instr.ME
+        f = ctx.w.futs[0]
+        op = self.op
+        if op == "cb":
+            f.add_done_callback(lambda fut: ctx.cb_calls.append(instr.current_role()))
+        elif op == "f_map":
+            ctx.chained = ME.futures.f_map(f, lambda v: ("mapped", v))
+        elif op == "f_flat_map":
+            ctx.chained = ME.futures.f_flat_map(f, lambda v: ME.futures.f_return(("flat", v)))
+        elif op == "f_zip":
+            other = SpyFuture("other")
+            other.set_result("o")
+            ctx.chained = ME.futures.f_zip(f, other)
+        elif op == "f_nocancel":
+            ctx.chained = ME.futures.f_nocancel(f)
+
+    def end_work(self, ctx):
+        w = ctx.w
+        how = self.case["how"]
+        if how == "outer_cancel":
+            r = call("cancel", w.futs[0].cancel, _tag=0)
+            w.cancel_ret[0] = r
+            return
+        for k in w.pending_items():
+            if w.owner(k) == 0:
+                w.act(k, how)
+                return
+
+    def start_victim(self, ctx):
+        d = self.case["direction"]
+        if d == "attach-first":
+            return ctx.actor("V", self.attach, ctx).go()
+        if d == "end-first":
+            return ctx.actor("V", self.end_work, ctx).go()
+        return ctx.actor("T", self.end_work, ctx).go()
+
+    def intervene(self, ctx):
+        if self.case["direction"] == "attach-first":
+            self.end_work(ctx)
+        else:
+            self.attach(ctx)
+
+    # SweepNested interface
+    role_a = victim_role
+    start_a = start_victim
+    intervene1 = attach
+
+    def finish(self, ctx):
+        ctx.w.run_to_end([])
+
+    def oracle(self, ctx, res, info):
+        w = ctx.w
+        if info.get("site2"):
+            info = dict(info, site=(info.get("site"), info.get("site2")))
+        label = "attach/%s/%s/%s/%s" % (">".join(self.case["layers"]), self.case["how"], self.case["direction"], self.op)
+        w.judge(res, label, self.case["how"], info)
+        f = w.futs[0]
+        site = info.get("site")
+        attached = (self.op == "cb" and True) or ctx.chained is not None
+        if not f.done() or not info.get("ran_intervention", True):
+            return
+        instr.advance(D)
+        if self.op == "cb":
+            # the attach call may not have happened at all if the victim never got there
+            if ctx.cb_calls == [] and info.get("attached", True):
+                res.violation("lost/callback/%s/%s" % (type(f).__name__, self.case["how"]),
+                              "done-callback added to a %s (stack %s) concurrently with its completion (%s) was never "
+                              "invoked although the future is done: %s; placement=%s direction=%s"
+                              % (type(f).__name__, ">".join(self.case["layers"]), self.case["how"], outcome_repr(outcome(f)),
+                                 site, self.case["direction"]), stack=self.case["layers"])
+            res.count("attached_callbacks_judged")
+        elif ctx.chained is not None:
+            if not ctx.chained.done():
+                res.violation("lost/chained/%s/%s/%s" % (self.op, type(f).__name__, self.case["how"]),
+                              "%s chained onto a %s (stack %s) concurrently with its completion (%s) is still pending "
+                              "although its input is done: %s; placement=%s direction=%s"
+                              % (self.op, type(f).__name__, ">".join(self.case["layers"]), self.case["how"],
+                                 outcome_repr(outcome(f)), site, self.case["direction"]), stack=self.case["layers"])
+            res.count("chained_futures_judged")
+        if info.get("hit"):
+            res.sample({"stack": self.case["layers"], "work_ends_by": self.case["how"], "direction": self.case["direction"],
+                        "attached": self.op, "suspended_at": site,
+                        "chained": outcome_repr(outcome(ctx.chained)) if ctx.chained is not None else None,
+                        "callback_ran_on": ctx.cb_calls}, limit=1)
+
+
+def run_attach(case, res):
+    rng = random.Random("c03/%s/%s" % (case["seed"], case["name"]))
+    for op in ATTACH_OPS:
+        scn = AttachScenario(case, op)
+        if case["direction"] == "end-first-worker":
+            # only meaningful when the stack has a worker thread
+            begin("vt")
+            ctx = scn.setup()
+            try:
+                has = scn.victim_role(ctx) is not None
+            finally:
+                end(ctx)
+            if not has:
+                res.count("attach.no_worker_thread")
+                return
+        Sweep(scn, res, "vt", case["name"], gran=case.get("gran", "line")).run(case["cap"], rng, per_site=2)
+        if harness.need_recycle():
+            return
+
+
+def run_attach_nested(case, res):
+    rng = random.Random("c03/%s/%s" % (case["seed"], case["name"]))
+    scn = AttachScenario(case, case["op"])
+    if case["direction"] == "end-first-worker":
+        begin("vt")
+        ctx = scn.setup()
+        try:
+            has = scn.victim_role(ctx) is not None
+        finally:
+            end(ctx)
+        if not has:
+            res.count("attach.no_worker_thread")
+            return
+    SweepNested(scn, res, "vt", case["name"]).run(None, None, rng, per_site=1, budget=case["budget"])
+
+
 def run_wake(case, res):
     rng = random.Random("c03/%s/%s" % (case["seed"], case["name"]))
     seconds = ["submit", "complete", "fail", "cancel", "inner_cancel"]
     if "poll" in case["layers"]:
         seconds.append("notify")
     for second in seconds:
-        Sweep(WakeScenario(case["layers"], case["trigger"], second), res, "vt", case["name"]).run(case["cap"], rng, per_site=2)
+        Sweep(WakeScenario(case["layers"], case["trigger"], second), res, "vt", case["name"],
+              gran=case.get("gran", "line")).run(case["cap"], rng, per_site=2)
         if harness.need_recycle():
             return
 
@@ -556,6 +730,10 @@ def run_case(case, res):
     if k == "donepair":
         rng = random.Random("c03/%s/%s" % (case["seed"], case["name"]))
         return Sweep(DonePairScenario(case), res, "vt", case["name"]).run(case["cap"], rng, per_site=3)
+    if k == "attach":
+        return run_attach(case, res)
+    if k == "attach-nested":
+        return run_attach_nested(case, res)
     if k == "ext":
         run_ext(case, res)
     elif k == "wake":
